@@ -21,7 +21,11 @@ REQUIRED_THEOREMS = ['toZMod_iso', 'reduced_ring_ops', 'reduced_partial_ops', 'i
                      'rsub_eq_sub_conv', 'rtruediv_eq_truediv_conv', 'mix_int', 'mix_int_div', 'ring_axioms',
                      'neutral', 'inv_iff_nonzero', 'div_eq_mul_reciprocal', 'pow_eq_repeated_mul', 'pow_neg',
                      'lshift_eq_mul_pow2', 'rshift_eq_div_pow2', 'lshift_rshift_cancel', 'shifts_char_two',
-                     'eq_iff', 'hash_bool']
+                     'eq_iff', 'hash_bool',
+                     'ext_reduced', 'ext_inplace_reflected_agree', 'ext_ring_axioms', 'ext_inv_iff_nonzero', 'ext_mix_int',
+                     'ext_pow', 'ext_shifts_as_coded', 'ext_shift_pow2_fails_witness', 'ext_shift_pow2_partial',
+                     'bin_reduced', 'bin_inplace_reflected_agree', 'bin_ring_axioms', 'bin_inv_iff_nonzero', 'bin_shifts',
+                     'bin_mix_int']
 RULE = ('case = (field, operator, left element, right operand); operators: + - * / with element/int/polynomial operand, '
         'reflected (int/polynomial on the left), in-place, unary -, +, reciprocal, bool, int, ** with exponents in '
         '[-q-2, q+2] and random large, << >> (incl. negative counts), ==, hash; EXHAUSTIVE over all element pairs of the '
@@ -34,8 +38,12 @@ ASSUMPTIONS = ['gmpy2 is modelled by the pure-Python stubs of mpyc/gmpy.py (the 
                'CPython int arithmetic and the built-in pow(x, y, m)',
                'polynomial arithmetic of gfpx.py as modelled by area GFpX (MpycV.GFpX / MpycV.BinPoly, properties C23/C24)']
 TRUSTED = ['harness/finfld_common.py (canonical text forms, request lines)', 'harness/finfld_oracle.py (reference arithmetic)']
-EXPLANATION = ('prime fields: every clause proved for every prime p and all values (MpycV.C20 part 1); extension/binary '
-               'fields: see part 2 of MpycV/Props/C20.lean and the report harness/reports/FinFld.md')
+EXPLANATION = ('proved for all inputs: prime fields (part 1: ring isomorphism to ZMod p and every clause), extension fields '
+               '(part 2, via AdjoinRoot of the modulus: reduced invariant, ring axioms, inverse iff nonzero, mixing ints, pow) and '
+               'binary fields (part 3, same + shifts = mul/div by F(2)^n).  Shifts of ODD-characteristic extension fields do not '
+               'satisfy the property (open known finding extfield-shift-odd-char): proved is what the code does '
+               '(ext_shifts_as_coded) and the kernel-checked counterexample (ext_shift_pow2_fails_witness); '
+               'hash consistency and the reflected == with a polynomial on the left are validated on the real code only')
 
 BIN_OPS = ['add', 'sub', 'mul', 'truediv']
 REFL = {'add': 'radd', 'sub': 'rsub', 'mul': 'rmul', 'truediv': 'rtruediv'}
